@@ -623,6 +623,17 @@ def r08_6(run):
                "under {out is not None, result.data.base is not None} the base lock cuts every path to the return" if ok else
                "an extra condition can skip the lock of the out= target's base (e.g. 'already tracked'): its count is then one short and the "
                "first graph to be cleared unlocks it under the op that wrote into the view")
+        # ... and without out=: a result that is a view of a temporary (x.T.reshape(-1), roll, conv_nd) has a writeable base too
+        cfg3 = build_cfg(run, fi, dict(assume, **{"out is not None": False, "out is None": True, f"{res}.data.base is not None": True,
+                                                   f"isinstance({res}.data.base, np.ndarray)": True, f"isinstance({res}.data.base, ndarray)": True}))
+        ns3 = {cfg3.stmt_node_containing(c) for c in base_locks}
+        ns3.discard(None)
+        rn3 = cfg3.node_for(r)
+        ok3 = bool(ns3) and rn3 is not None and cfg3.set_dominates(ns3, rn3)
+        run.ob("R08.6", loc(fi, base_locks[0]), fi.short, f"base of the result array is locked whenever the result has an ndarray base (out= or not)", ok3,
+               "under {out is None, isinstance(result.data.base, ndarray)} the base lock cuts every path to the return" if ok3 else
+               "without out= the base of the result is never locked: a result that is a view of a temporary (x.T.reshape(-1), roll, conv_nd) can be "
+               "rewritten through `y.data.base[...] = v` although y belongs to a live graph")
 
 
 def r08_11(run):
